@@ -212,6 +212,34 @@ def btSearchFrom (N : NFA) (h : Bytes) (at_ : Nat) : Nat → Nat → Option (Nat
 def btSearchAt (N : NFA) (h : Bytes) (at_ : Nat) : Option (Nat × Nat) :=
   btSearchFrom N h at_ (h.size + 2 - at_) at_
 
+/-- `btSpan` without a visited set: depth-bounded plain DFS (exact on acyclic fragments such as compiled classes, where it is
+    much cheaper; `none` when the depth bound is hit, then the caller falls back to `acceptsSpan`) -/
+def walkSpan (N : NFA) (h : Bytes) (e : Nat) : Nat → Nat → Nat → Option Bool
+  | 0, _, _ => none
+  | fuel+1, pos, q =>
+    match N.get q with
+    | .mtch => some (decide (pos = e) && decide (q < N.states.size))
+    | .byteRange lo hi nx =>
+      if pos < h.size ∧ lo ≤ h.at pos ∧ h.at pos ≤ hi then walkSpan N h e fuel (pos+1) nx else some false
+    | .sparse ts =>
+      if pos ≥ h.size then some false else
+      match firstTrans (h.at pos) ts with
+      | some nx => walkSpan N h e fuel (pos+1) nx
+      | none => some false
+    | .split l r =>
+      match walkSpan N h e fuel pos l with
+      | some true => some true
+      | some false => walkSpan N h e fuel pos r
+      | none => none
+    | .eps nx => walkSpan N h e fuel pos nx
+    | .cap _ _ nx => walkSpan N h e fuel pos nx
+    | .look k nx => if lookOK k h pos then walkSpan N h e fuel pos nx else some false
+    | .runeAny nx =>
+      if pos < h.size ∧ runeWidth h pos > 0 then walkSpan N h e fuel (pos + runeWidth h pos) nx else some false
+    | .runeAnyNotNL nx =>
+      if pos < h.size ∧ h.at pos ≠ 10 ∧ runeWidth h pos > 0 then walkSpan N h e fuel (pos + runeWidth h pos) nx else some false
+    | .fail => some false
+
 /-- decision procedure for `Accepts N h s e` -/
 def acceptsSpan (N : NFA) (h : Bytes) (s e : Nat) : Bool :=
   (btSpan { N := N, h := h, spanStart := 0 } e (btFuel N h) s N.startAnchored (freshVis N h)).1
